@@ -15,6 +15,12 @@
 //            A quarter of the histories run on a server with small limits in its central state (3-6 children per node and/or 6-30 nodes
 //            per session, possibly different for sessions joining later), 3% have index nodes at depths 99 and 100 (MUSCLE_MAX_NODE_DEPTH),
 //            so that ordered inserts by every path are REFUSED at arbitrary points; a refused insert must leave no trace.
+//            SETDATA may carry SETDATANODE_FLAG_ENABLESUPERCEDE (a third of the re-uploads of index nodes, a quarter of the plain child sets);
+//            the "supercede" operation interleaves index changes of one node with superceding re-uploads of that node's own payload, back to
+//            back in one server cycle or in one BATCH; 30% of the sessions have 2 KB socket buffers and any subscriber may stop reading for
+//            3-16 steps, so that its server-side gateway queue holds unsent Messages when a supercede prunes it (a paused reader is audited
+//            after it has drained; all are drained before the final audit).  IdxSession::ObserveSupercede counts, in process, how often a
+//            node was superceded while an index update of it was still queued for a subscriber.
 //            Every session may subscribe (plain, two patterns at once, or BATCH{quiet subscribe, GETDATA}) to its OWN and to foreign
 //            index nodes and unsubscribe again; each keeps per node path a list and applies every PR_RESULT_INDEXUPDATED string
 //            in arrival order (c / i<pos>:<name> / r<pos>:<name>; a remove that does not fit, an insert beyond the end or a
@@ -34,7 +40,8 @@
 //   regress  fixed witnesses: F15 (index created only by REORDERDATA, own-node subscription), F32 (generated child names are a
 //            function of the node's history, not of the process's), repeated add-to-index, hostile tree restore + save/restore
 //            round trip, SETDATATREES bounce, the documentation examples of INSERTORDEREDDATA / REORDERDATA, oracle self-tests,
-//            refused ordered inserts (child limit, node limit, depth limit) leave no trace,
+//            refused ordered inserts (child limit, node limit, depth limit) leave no trace, a superceding re-upload of an indexed node's
+//            payload (one BATCH, back to back, behind a backlog) leaves the node's queued index updates alone,
 //            and the two defects this harness found in CloneDataNodeSubtree (fixed in /repo by "fix: CloneDataNodeSubtree() could
 //            list a child twice in the clone's index, and did not set _indexingPresent"); both keep their own keys (clone|...) and
 //            their classification in mode=index, so that a regression is reported as what it is and the history goes on.
@@ -77,9 +84,31 @@ class IdxSession : public StorageReflectSession {
 public:
    uint32 childLimit, nodeLimit;   // MUSCLE_NO_LIMIT = none
    IdxSession() : childLimit(MUSCLE_NO_LIMIT), nodeLimit(MUSCLE_NO_LIMIT) {}
+   // Superceding updates.  SETDATANODE_FLAG_ENABLESUPERCEDE lets a node's new payload replace the node's previous, still UNSENT update in a
+   // subscriber's outgoing queue.  PR_RESULT_INDEXUPDATED Messages use the node path as field name too and must survive that pruning.
+   // This observes (in process, just before the payload of an existing node is replaced with the flag set) what the notified subscribers'
+   // server-side gateway queues hold, so that the check can prove the state "index update of N still queued while N is superceded" was reached.
+   void ObserveSupercede(const String & nodePath)
+   {
+      const DataNode * n = (nodePath.HasChars() && nodePath[0] != '/') ? GetDataNode(nodePath) : NULL; String np;
+      if (n == NULL || n->GetNodePath(np).IsError()) return;
+      vh::stat("supercede_sets_on_existing_node"); if (n->GetIndex() == NULL || n->GetIndex()->IsEmpty()) return;
+      vh::stat("supercede_sets_on_indexed_node");
+      bool any = false, newest = false;
+      for (ConstHashtableIterator<uint32, uint32> it(n->GetSubscribers()); it.HasData(); it++) {
+         AbstractReflectSessionRef sr = GetSession(it.GetKey()); StorageReflectSession * s = dynamic_cast<StorageReflectSession *>(sr());
+         if (s == NULL || (s == this && !IsRoutingFlagSet(MUSCLE_ROUTING_FLAG_REFLECT_TO_SELF)) || s->GetGateway()() == NULL) continue;   // not notified of this change
+         const Queue<MessageRef> & q = s->GetGateway()()->GetOutgoingMessageQueue(); vh::statmax("max_subscriber_queue_depth_at_supercede", (long)q.GetNumItems());
+         bool sawMention = false;
+         for (int32 i = q.GetLastValidIndex(); i >= 0; i--) { const Message * m = q[i](); if (m == NULL || !m->HasName(np)) continue; if (m->what == PR_RESULT_INDEXUPDATED) { any = true; if (!sawMention) newest = true; } sawMention = true; }
+      }
+      if (any) vh::stat("supercede_sets_on_indexed_node_with_queued_index_update");
+      if (newest) vh::stat("supercede_sets_with_index_update_as_newest_queued_mention");   // exactly where a pruning that ignores the Message type would strike
+   }
    virtual status_t SetDataNode(const String & nodePath, const ConstMessageRef & dataMsgRef, SetDataNodeFlags flags = SetDataNodeFlags(), const String & optInsertBefore = GetEmptyString())
    {
       const bool nodeLimitHit = rbpriv::SessionNodeCount(rbpriv::NodeCountTag(), *this) >= nodeLimit;
+      if (flags.IsBitSet(SETDATANODE_FLAG_ENABLESUPERCEDE) && !flags.IsBitSet(SETDATANODE_FLAG_QUIET) && !flags.IsBitSet(SETDATANODE_FLAG_ADDTOINDEX)) ObserveSupercede(nodePath);
       const status_t r = StorageReflectSession::SetDataNode(nodePath, dataMsgRef, flags, optInsertBefore);
       if (r == B_RESOURCE_LIMIT && flags.IsBitSet(SETDATANODE_FLAG_ADDTOINDEX) && nodePath.HasChars() && nodePath[0] != '/') {
          const int32 slash = nodePath.LastIndexOf('/'); const DataNode * parent = (slash < 0) ? GetSessionNode()() : GetDataNode(nodePath.Substring(0, slash));
@@ -162,8 +191,9 @@ struct Actor {
    Client * c; int id; bool reflect, gone; Names subs; std::map<std::string, Names> lists; size_t cursor;
    std::map<int32, std::string> pendingUnsub; std::map<int32, Names> pendingSub; std::string errKey, errDetail; long settreesSent, settreesBounced; long hcSent, hcAnswered;
    bool cloneFlagHazard, ownPoisoned;   // see KEY_CLONE_FLAG
+   int pauseLeft; bool slow;            // pauseLeft > 0: the client does not read for that many more steps (the server-side queue of a slow one builds up)
    int style;                           // 0: every operation; k>0: the only index-creating operation this session ever uses is STYLE_KIND[k] (the others become plain SETDATA)
-   Actor() : c(NULL), id(0), reflect(false), gone(false), cursor(0), cloneFlagHazard(false), ownPoisoned(false), style(0), settreesSent(0), settreesBounced(0), hcSent(0), hcAnswered(0) {}
+   Actor() : c(NULL), id(0), reflect(false), gone(false), cursor(0), cloneFlagHazard(false), ownPoisoned(false), pauseLeft(0), slow(false), style(0), settreesSent(0), settreesBounced(0), hcSent(0), hcAnswered(0) {}
    bool Tracked(const std::string & path) const
    {
       const long slashes = (long)std::count(path.begin(), path.end(), '/');   // cheap rejection by depth first (paths can be 100 levels deep)
@@ -290,7 +320,9 @@ static Actor * AddActor(Hist & h, bool reflect)
 {
    Bench & b = *h.b; ConstSocketRef x, y;
    if (CreateConnectedSocketPair(x, y, false).IsError()) Abort("CreateConnectedSocketPair failed");
-   Client * c = new Client; c->sock = x; c->io = new BudgetDataIO(x); c->ioRef.SetRef(c->io); c->gw.SetDataIO(c->ioRef);
+   const bool slow = h.styles && R(10) < 3;   // small socket buffers: when this client stops reading, its server-side gateway queue builds up after a few KB
+   if (slow) { (void)SetSocketSendBufferSize(x, 2048); (void)SetSocketReceiveBufferSize(x, 2048); (void)SetSocketSendBufferSize(y, 2048); (void)SetSocketReceiveBufferSize(y, 2048); vh::stat("sessions_with_small_socket_buffers"); }
+   Client * c = new Client; c->slow = slow; c->sock = x; c->io = new BudgetDataIO(x); c->ioRef.SetRef(c->io); c->gw.SetDataIO(c->ioRef);
    { IdxSession * is = new IdxSession; is->childLimit = h.childLimit; is->nodeLimit = h.nodeLimit; c->session.SetRef(is); }
    if (b.server.AddNewSession(c->session, y).IsError()) Abort("AddNewSession failed");
    const StorageReflectSession & s = *c->session();
@@ -300,7 +332,7 @@ static Actor * AddActor(Hist & h, bool reflect)
    if (reflect) { MessageRef sp = GetMessageFromPool(PR_COMMAND_SETPARAMETERS); (void)sp()->AddBool(PR_NAME_REFLECT_TO_SELF, true); c->Send(sp); }
    c->Send(GetMessageFromPool(PR_COMMAND_GETPARAMETERS)); b.Settle();
    if (c->params() == NULL || c->root != c->params()->GetString(PR_NAME_SESSION_ROOT)()) Abort("handshake of a new session failed");
-   Actor * a = new Actor; a->c = c; a->id = h.nextId++; a->reflect = reflect; h.actors.push_back(a);
+   Actor * a = new Actor; a->c = c; a->id = h.nextId++; a->reflect = reflect; a->slow = slow; h.actors.push_back(a);
    if (h.childLimit != MUSCLE_NO_LIMIT) vh::stat("sessions_with_child_limit"); if (h.nodeLimit != MUSCLE_NO_LIMIT) vh::stat("sessions_with_node_limit");
    if (c->params()->GetInt32(PR_NAME_MAX_CHILDREN_PER_NODE) != (int32)h.childLimit || c->params()->GetInt32(PR_NAME_MAX_NODES_PER_SESSION) != (int32)h.nodeLimit) Abort("the session did not attach under the limits the harness set");
    if (h.styles && R(3) == 0) { a->style = 1 + (int)R(6); vh::stat(std::string("sessions_with_only_") + OPNAME_OF_STYLE[a->style]); }
@@ -325,7 +357,7 @@ static bool Check(Hist & h, Truth * optOut = NULL, bool light = false)
 {
    Bench & b = *h.b; b.Settle();
    if (g_trace) { static size_t shown = 0; if (shown > h.log.size()) shown = 0; for (; shown < h.log.size(); shown++) fprintf(stderr, "%s\n", h.log[shown].c_str()); }
-   for (size_t i = 0; i < h.actors.size(); i++) if (!h.actors[i]->gone) Process(h, *h.actors[i]);
+   for (size_t i = 0; i < h.actors.size(); i++) if (!h.actors[i]->gone && h.actors[i]->pauseLeft == 0) Process(h, *h.actors[i]);
    for (size_t i = 0; i < h.actors.size() && !h.bad; i++) if (!h.actors[i]->errKey.empty()) Fail(h, h.actors[i]->errKey, h.actors[i]->errDetail);
    if (h.bad) return false;
    Truth T; if (!TruthNow(h, T)) return false;
@@ -369,6 +401,7 @@ static bool Check(Hist & h, Truth * optOut = NULL, bool light = false)
    for (size_t i = 0; i < h.actors.size(); i++) {
       Actor & a = *h.actors[i]; if (a.gone) continue;
       if (!a.c->alive) Abort("a live session's client lost its connection");
+      if (a.pauseLeft > 0) { vh::stat("audits_skipped_reader_paused"); vh::statmax("max_server_side_queue_of_paused_reader", (long)Bench::ServerSideQueueLength(*a.c->session())); continue; }   // audited after it has drained
       if (a.settreesSent != a.settreesBounced) { Fail(h, "settrees|not_bounced", vh::fmt("session a%d sent %ld PR_COMMAND_SETDATATREES, got %ld PR_RESULT_ERRORUNIMPLEMENTED", a.id, a.settreesSent, a.settreesBounced)); return false; }
       if (a.hcSent != a.hcAnswered) Abort("a harness subtree command got no reply");
       if (a.subs.empty()) continue;
@@ -402,10 +435,10 @@ static const char * SUBPOOL[] = {"*", "L", "M", "C", "(L|M)", "L/*", "*/*", "/*/
 static const uint32 NSUBPOOL = sizeof(SUBPOOL) / sizeof(SUBPOOL[0]);
 static std::string PickSub() { if (!g_deep.empty() && R(10) < 4) { const uint32 r = R(4); return r == 0 ? g_deep[1] : r == 1 ? g_deep[0] + "/*" : g_deep[0]; } return SUBPOOL[R(NSUBPOOL)]; }
 
-static MessageRef CmdSet(const std::string & path, bool addToIndex, bool quiet, int32 v)
+static MessageRef CmdSet(const std::string & path, bool addToIndex, bool quiet, int32 v, bool supercede = false)
 {
-   MessageRef m = GetMessageFromPool(PR_COMMAND_SETDATA); SetDataNodeFlags f; if (addToIndex) f.SetBit(SETDATANODE_FLAG_ADDTOINDEX); if (quiet) f.SetBit(SETDATANODE_FLAG_QUIET);
-   if (addToIndex || quiet) (void)m()->AddFlat(PR_NAME_FLAGS, f);
+   MessageRef m = GetMessageFromPool(PR_COMMAND_SETDATA); SetDataNodeFlags f; if (addToIndex) f.SetBit(SETDATANODE_FLAG_ADDTOINDEX); if (quiet) f.SetBit(SETDATANODE_FLAG_QUIET); if (supercede) f.SetBit(SETDATANODE_FLAG_ENABLESUPERCEDE);
+   if (addToIndex || quiet || supercede) (void)m()->AddFlat(PR_NAME_FLAGS, f);
    (void)m()->AddMessage(path.c_str(), Pay(v)); return m;
 }
 static MessageRef CmdInsert(const Names & keys, const Names & befores)
@@ -493,10 +526,10 @@ static void PredictCloneDup(const Truth & T, const std::string & src, const std:
 
 // ---- one history ---------------------------------------------------------------------------------------------------------------
 enum OpKind { OP_ENSURE, OP_INSERT, OP_SETIDX, OP_SETPLAIN, OP_REORDER, OP_REMOVE, OP_SUBSCRIBE, OP_UNSUBSCRIBE, OP_GETDATA, OP_JOIN, OP_LEAVE, OP_CLONE, OP_SAVE, OP_RESTORE, OP_SETNODE,
-              OP_SETTREES, OP_MAXITEMS, OP_INSERT_CHECKED, OP_REORDER_CHECKED, OP_QUIET, NUM_OPS };
+              OP_SETTREES, OP_MAXITEMS, OP_INSERT_CHECKED, OP_REORDER_CHECKED, OP_QUIET, OP_SUPERCEDE, OP_PAUSE, NUM_OPS };
 static const char * OPNAME[NUM_OPS] = {"ensure", "insert", "setidx", "setplain", "reorder", "remove", "subscribe", "unsubscribe", "getdata", "join", "leave", "clone", "save", "restore", "setnode",
-              "settrees", "maxitems", "insert_checked", "reorder_checked", "quiet"};
-static const uint32 OPWEIGHT[NUM_OPS] = {5, 17, 9, 6, 13, 10, 8, 3, 4, 2, 2, 4, 3, 4, 3, 1, 1, 2, 2, 2};
+              "settrees", "maxitems", "insert_checked", "reorder_checked", "quiet", "supercede", "pause"};
+static const uint32 OPWEIGHT[NUM_OPS] = {5, 17, 9, 6, 13, 10, 8, 3, 4, 2, 2, 4, 3, 4, 3, 1, 1, 2, 2, 2, 5, 3};
 
 // Which server path created a session's indexes matters (F15: the per-session flag that enables own-node snapshots is set on each
 // index-creating path separately), so a third of the sessions stick to ONE index-creating operation for their whole life.
@@ -513,28 +546,28 @@ static Actor * PickLive(Hist & h) { std::vector<Actor *> v; for (size_t i = 0; i
 static size_t NumLive(Hist & h) { size_t n = 0; for (size_t i = 0; i < h.actors.size(); i++) if (!h.actors[i]->gone) n++; return n; }
 
 // a data command (insert / set / reorder / remove) of the kind asked for, with its description
-static MessageRef DataCommand(Hist & h, OpKind k, std::string & what)
+static MessageRef DataCommand(Hist & h, OpKind k, std::string & what, const std::string * forceIx = NULL)
 {
-   const std::string ix = PickIdx();
+   const std::string ix = forceIx ? *forceIx : PickIdx();
    switch (k) {
-   case OP_ENSURE: what = "SETDATA " + ix; return CmdSet(ix, false, false, (int32)R(100));
+   case OP_ENSURE: { const bool sup = R(3) == 0; what = std::string(sup ? "SETDATA+supercede " : "SETDATA ") + ix; return CmdSet(ix, false, false, (int32)R(100), sup); }
    case OP_INSERT: {
       Names keys, bef; const uint32 r = R(10);
-      if (r < 7) keys.push_back(ix); else if (r == 7) keys.push_back("*"); else if (r == 8) keys.push_back(ix + "/*"); else { keys.push_back(ix); keys.push_back(PickIdx()); }
+      if (r < 7 || forceIx) keys.push_back(ix); else if (r == 7) keys.push_back("*"); else if (r == 8) keys.push_back(ix + "/*"); else { keys.push_back(ix); keys.push_back(PickIdx()); }
       const uint32 n = 1 + (R(3) == 0) + (R(6) == 0); for (uint32 i = 0; i < n; i++) bef.push_back(R(4) == 0 ? std::string("atEnd") : PickName(h));
       what = "INSERTORDERED keys=" + Join(keys) + " before=" + Join(bef); return CmdInsert(keys, bef);
    }
    case OP_SETIDX: { std::string p = ix + "/" + (R(5) == 0 ? vh::fmt("n%u", R(6)) : PickName(h)); const bool q = R(5) == 0; what = "SETDATA+index" + std::string(q ? "+quietflag " : " ") + p; return CmdSet(p, true, q, (int32)R(100)); }
-   case OP_SETPLAIN: { std::string p = ix + "/" + (R(5) == 0 ? vh::fmt("p%u", R(4)) : PickName(h)); if (R(8) == 0) p += "/" + PickName(h); what = "SETDATA " + p; return CmdSet(p, false, false, (int32)R(100)); }
+   case OP_SETPLAIN: { std::string p = ix + "/" + (R(5) == 0 ? vh::fmt("p%u", R(4)) : PickName(h)); if (R(8) == 0) p += "/" + PickName(h); const bool sup = R(4) == 0; what = std::string(sup ? "SETDATA+supercede " : "SETDATA ") + p; return CmdSet(p, false, false, (int32)R(100), sup); }
    case OP_REORDER: {
-      const uint32 r = R(20); std::string key = r < 12 ? ix + "/" + PickName(h) : r < 16 ? ix + "/*" : r < 18 ? "*/" + PickName(h) : r < 19 ? ix : ix + "/*/*";
+      const uint32 r = forceIx ? R(16) : R(20); std::string key = r < 12 ? ix + "/" + PickName(h) : r < 16 ? ix + "/*" : r < 18 ? "*/" + PickName(h) : r < 19 ? ix : ix + "/*/*";
       const uint32 v = R(20); std::string val = v < 10 ? PickName(h) : v < 14 ? std::string(PR_NAME_REMOVE_FROM_INDEX) : v < 17 ? std::string("nosuchchild") : v < 19 ? std::string("") : PickIdx();
       what = "REORDER " + key + " before '" + val + "'"; MessageRef m = CmdReorder(key, val);
       if (R(6) == 0) { std::string k2 = PickIdx() + "/" + PickName(h), v2 = PickName(h); if (k2 != key) { (void)m()->AddString(k2.c_str(), v2.c_str()); what += " and " + k2 + " before '" + v2 + "'"; } }
       return m;
    }
    default: {
-      const uint32 r = R(20); std::string key = r < 11 ? ix + "/" + PickName(h) : r < 14 ? ix + "/*" : r < 18 ? ix : r < 19 ? std::string("*") : ix + "/" + PickName(h) + "/*";
+      const uint32 r = forceIx ? R(14) : R(20); std::string key = r < 11 ? ix + "/" + PickName(h) : r < 14 ? ix + "/*" : r < 18 ? ix : r < 19 ? std::string("*") : ix + "/" + PickName(h) + "/*";
       what = "REMOVE " + key; return CmdRemove(key, false);
    }
    }
@@ -559,6 +592,7 @@ static void RunHistory(long k, uint64_t seed, long nOps)
       if (a == NULL) { a = AddActor(h, R(4) == 0); h.log.push_back(vh::fmt("a%d joins (nobody was left)", a->id)); vh::stat("sessions_joined"); }
       uint32 r = R(totalW); int kind = 0; while (r >= OPWEIGHT[kind]) { r -= OPWEIGHT[kind]; kind++; }
       kind = Restrict(*a, kind);
+      for (size_t i = 0; i < h.actors.size(); i++) if (!h.actors[i]->gone && h.actors[i]->pauseLeft > 0 && --h.actors[i]->pauseLeft == 0) { h.actors[i]->c->readPaused = false; h.log.push_back(vh::fmt("a%d reads again", h.actors[i]->id)); }
       if ((limited || deep) && kind == OP_INSERT && R(4) == 0) kind = OP_INSERT_CHECKED;   // the checked insert is what counts refused INSERTORDEREDDATA
       std::string what; bool counted = true;
       switch (kind) {
@@ -569,6 +603,26 @@ static void RunHistory(long k, uint64_t seed, long nOps)
             for (uint32 i = 0; i < more; i++) { std::string w; v.push_back(DataCommand(h, (OpKind)Restrict(*a, dk[R(8)]), w)); what += " + " + w; }
             what = "BATCH{" + what + "}"; a->c->Send(CmdBatch(v)); vh::stat("batches");
          } else a->c->Send(DataCommand(h, (OpKind)kind, what));
+      } break;
+      case OP_SUPERCEDE: {
+         // index changes of ONE node interleaved with superceding re-uploads of that node's own payload, back to back (one server cycle) or in one BATCH:
+         // the index updates are still in the subscribers' outgoing queues when the supercede prunes those queues
+         const std::string ix = PickIdx(false); std::vector<MessageRef> v; static const OpKind ik[] = {OP_INSERT, OP_INSERT, OP_SETIDX, OP_REORDER, OP_REORDER, OP_REMOVE};
+         if (R(3) == 0) { v.push_back(CmdSet(ix, false, false, (int32)R(100), R(2) == 0)); what = "SETDATA " + ix + " + "; }
+         const uint32 n = 1 + R(3);
+         for (uint32 i = 0; i < n; i++) {
+            std::string w; v.push_back(DataCommand(h, (OpKind)Restrict(*a, ik[R(6)]), w, &ix)); what += w + " + ";
+            if (R(10) < 7 || i + 1 == n) { v.push_back(CmdSet(ix, false, false, (int32)R(100), true)); what += "SETDATA+supercede " + ix + " + "; }
+            if (R(4) == 0) { const std::string kid = ix + "/" + PickName(h); v.push_back(CmdSet(kid, false, false, (int32)R(100), true)); what += "SETDATA+supercede " + kid + " + "; }
+         }
+         what.resize(what.size() - 3);
+         if (R(2)) { what = "BATCH{" + what + "}"; a->c->Send(CmdBatch(v)); vh::stat("batches"); } else { what = "back to back: " + what; for (size_t i = 0; i < v.size(); i++) a->c->Send(v[i]); }
+      } break;
+      case OP_PAUSE: {
+         Actor * p = PickLive(h); if (p == NULL || p->pauseLeft > 0 || p->subs.empty()) { counted = false; break; }
+         if (R(3) != 0) { p->c->Send(CmdGetData(R(2) ? "*" : "*/*")); }   // a large reply first, so that the socket buffers are full sooner
+         p->c->Pump(); p->c->readPaused = true; p->pauseLeft = 3 + (int)R(14); vh::stat(p->slow ? "reader_pauses_small_buffers" : "reader_pauses");
+         h.log.push_back(vh::fmt("a%d stops reading for %d steps%s", p->id, p->pauseLeft, p->slow ? " (small socket buffers)" : "")); what.clear();
       } break;
       case OP_QUIET: {   // silent index changes, only at/under Q (excluded from replay comparison)
          const uint32 q = R(3);
@@ -588,6 +642,7 @@ static void RunHistory(long k, uint64_t seed, long nOps)
       } break;
       case OP_UNSUBSCRIBE: {
          if (a->subs.empty()) { counted = false; break; }
+         if (a->pauseLeft > 0) { a->pauseLeft = 0; a->c->readPaused = false; h.log.push_back(vh::fmt("a%d reads again", a->id)); }   // it waits for the pong
          const bool all = R(8) == 0; const std::string p = all ? std::string() : a->subs[R((uint32)a->subs.size())];
          MessageRef rm = GetMessageFromPool(PR_COMMAND_REMOVEPARAMETERS);
          if (all) (void)rm()->AddString(PR_NAME_KEYS, "SUBSCRIBE:*"); else (void)rm()->AddString(PR_NAME_KEYS, EscapeRegexTokens(String(("SUBSCRIBE:" + p).c_str())));
@@ -700,6 +755,7 @@ static void RunHistory(long k, uint64_t seed, long nOps)
       if (!what.empty()) h.log.push_back(vh::fmt("a%d ", a->id) + what);
       if (!h.bad && R(3) == 0) { h.log.push_back("--check--"); Check(h); }
    }
+   for (size_t i = 0; i < h.actors.size(); i++) if (!h.actors[i]->gone && h.actors[i]->pauseLeft > 0) { h.actors[i]->pauseLeft = 0; h.actors[i]->c->readPaused = false; }   // everything drains before the last audit
    if (!h.bad) { h.log.push_back("--final check--"); Check(h); }
    vh::statmax("max_op_kinds_in_one_history", (long)kindsUsed.size());
    const bool nontrivial = h.cmpNonEmpty >= 1 && h.idxOps >= 10;
@@ -872,6 +928,38 @@ static void RegressRefusals()
    EXPECT(h, TrueIndex(h, d->c->root + "/" + c99).size() == 2 && TrueIndex(h, d->c->root + "/" + c100, &kids).empty() && kids.empty(), "regress|refused_insert_left_a_trace", "depth limit: index at depth 99 " + Join(TrueIndex(h, d->c->root + "/" + c99)) + ", at depth 100 " + Join(TrueIndex(h, d->c->root + "/" + c100)));
    vh::stat("regress_refusals");
 }
+// a superceding re-upload of an indexed node's payload must not take the node's still-queued index updates with it
+static void RegressSupercede()
+{
+   Bench bench; Hist h; h.b = &bench; h.styles = false; { Options o; o.reflectToSelf = true; h.obs = bench.AddClient(o); }
+   Actor * a = AddActor(h, false); Actor * w = AddActor(h, false); const std::string L = a->c->root + "/L";
+   Names two; two.push_back("L"); two.push_back("L/*"); w->c->Send(CmdSubscribe(two, false)); w->subs = two;
+   a->c->Send(CmdSet("L", false, false, 1)); a->c->Send(CmdInsert(Names(1, "L"), Names(2, "atEnd"))); h.log.push_back("SETDATA L; INSERTORDERED L x2"); Check(h);
+   // 1) the scenario of seeded/C13-3: one BATCH {INSERTORDEREDDATA L; SETDATA L with ENABLESUPERCEDE}
+   { std::vector<MessageRef> v; v.push_back(CmdInsert(Names(1, "L"), Names(1, "atEnd"))); v.push_back(CmdSet("L", false, false, 2, true)); a->c->Send(CmdBatch(v)); h.log.push_back("BATCH{INSERTORDERED L + SETDATA+supercede L}"); }
+   Check(h);
+   EXPECT(h, TrueIndex(h, L).size() == 3 && w->lists[L] == TrueIndex(h, L), "regress|supercede_pruned_a_queued_index_update", "replayed " + Join(w->lists[L]) + ", true index " + Join(TrueIndex(h, L)));
+   // 2) the same back to back in one server cycle, with a reorder and a removal
+   const Names B = TrueIndex(h, L); if (h.bad || B.size() != 3) return;
+   a->c->Send(CmdReorder("L/" + B[2], B[0])); a->c->Send(CmdSet("L", false, false, 3, true)); a->c->Send(CmdRemove("L/" + B[1], false)); a->c->Send(CmdSet("L", false, false, 4, true));
+   h.log.push_back("back to back: REORDER + SETDATA+supercede L + REMOVE + SETDATA+supercede L"); Check(h);
+   EXPECT(h, TrueIndex(h, L).size() == 2 && w->lists[L] == TrueIndex(h, L), "regress|supercede_pruned_a_queued_index_update", "replayed " + Join(w->lists[L]) + ", true index " + Join(TrueIndex(h, L)));
+   // 3) a backlog: the subscriber (small socket buffers) stops reading while the writer alternates inserts and superceding re-uploads in separate server cycles
+   h.styles = true; Actor * s = NULL; for (int tries = 0; tries < 64 && (s == NULL || !s->slow); tries++) { if (s) { s->c->Cut(); s->gone = true; } s = AddActor(h, false); } h.styles = false;
+   if (s == NULL || !s->slow) Abort("no session with small socket buffers");
+   s->style = 0; s->c->Send(CmdSubscribe(two, false)); s->subs = two; Check(h);
+   s->c->Send(CmdGetData("/*/*")); s->c->Send(CmdGetData("*")); s->c->Pump(); s->c->readPaused = true; s->pauseLeft = 1000;
+   MessageRef big = GetMessageFromPool(1000); (void)big()->AddString("pad", std::string(700, 'x').c_str()); (void)big()->AddInt32("v", 1);
+   for (int i = 0; i < 40; i++) {
+      a->c->Send(CmdInsert(Names(1, "L"), Names(1, i % 3 ? B[0] : std::string("atEnd")))); bench.Settle();
+      MessageRef sd = GetMessageFromPool(PR_COMMAND_SETDATA); SetDataNodeFlags f; f.SetBit(SETDATANODE_FLAG_ENABLESUPERCEDE); (void)sd()->AddFlat(PR_NAME_FLAGS, f); (void)sd()->AddMessage("L", big); a->c->Send(sd); bench.Settle();
+      if (i % 5 == 4) { a->c->Send(CmdSet("L/pad", false, false, i)); bench.Settle(); }
+   }
+   vh::statmax("regress_backlog_queue_depth", (long)Bench::ServerSideQueueLength(*s->c->session()));
+   h.log.push_back("a slow subscriber stops reading; 40 x (INSERTORDERED L; settle; SETDATA+supercede L; settle); it reads again"); s->pauseLeft = 0; s->c->readPaused = false; Check(h);
+   EXPECT(h, s->lists[L] == TrueIndex(h, L) && w->lists[L] == TrueIndex(h, L), "regress|supercede_pruned_a_queued_index_update", "replayed " + Join(s->lists[L]) + ", true index " + Join(TrueIndex(h, L)));
+   vh::stat("regress_supercede");
+}
 static void RegressOracleSelfTest()
 {
    // the replay function must object to every kind of misfit, and the comparison to a wrong list
@@ -906,6 +994,7 @@ int main(int argc, char ** argv)
       vh::begin_case(5); RegressCloneOwnSubscription();
       vh::begin_case(6); RegressCloneTwice();
       vh::begin_case(7); RegressRefusals();
+      vh::begin_case(8); RegressSupercede();
       vh::distinct(1, true);
    } else if (mode == "index") {
       const long nOps = vh::optl("ops", 80);
